@@ -561,6 +561,24 @@ def main(tier, seed):
     chk.extra["cells"] = len(cells)
     chk.extra["cells_differing_per_flagset"] = cell_bad
 
+    # ---- the cells whose rule only fires on a LATER pass of the fixpoint (store into an interface-typed field,
+    # struct conversion), alone in a program without helper functions: in the big program the passes triggered by
+    # newly found helper APIs would hide a fixpoint that stops too early
+    late = [c for c in cells if c["cons"] in ("iface-field-store", "convert") and c["via"] == "direct" and c["site"] == "main" and c["decl"] == "main"]
+    if quick:
+        late = [next(c for c in late if c["cons"] == k) for k in ("iface-field-store", "convert") if any(c["cons"] == k for c in late)]
+    for li, c in enumerate(late):
+        lsrc = scratch / f"late-src-{li}"
+        write_module(lsrc, gen_cells_program([c]), module=CELLS_MODULE)
+        rl0 = sb.go(["build", "-o", str(scratch / f"late-plain-{li}"), "."], cwd=lsrc)
+        if rl0.returncode != 0:
+            raise Inconclusive(f"late-pass cell program does not build with go build:\n{rl0.stderr[-2000:]}")
+        pl = run([scratch / f"late-plain-{li}"], timeout=120)
+        fl = flag_sets[0]
+        rlg = sbs[flag_tag(fl)].garble(fl + ["build", "-o", str(scratch / f"late-bin-{li}"), "."], cwd=lsrc, timeout=1800)
+        judge_cells(chk, fl, [c], lsrc, split_cell_output(pl.stdout), rlg, scratch / f"late-bin-{li}")
+    chk.extra["late_pass_cells_isolated"] = len(late)
+
     # ---- replacer
     th_repl.join()
     rp = tlc_jobs["replacer"]
